@@ -64,6 +64,15 @@ def std(kind):
         out["BAD"] = b"garbage line without structure\r\n"
     else:
         out["BAD"] = b"Zxx not an actisense line\r\n"
+    # well framed, but the library's decoder raises on it (each kind with an exception type other than ValueError where one exists)
+    if kind == "ebyte":
+        out["RAISE"] = wire.ebyte_packet(wire.can_id(3, 126720, 5, 255), b"\x00")                 # IndexError
+    elif kind == "waveshare":
+        out["RAISE"] = wire.usb_packet(wire.can_id(3, 126720, 5, 255), b"")                        # IndexError
+    elif kind == "yd":
+        out["RAISE"] = (wire.yd_line(wire.can_id(3, 126720, 5, 255), b"\x00") + "\r\n").encode()    # IndexError
+    else:
+        out["RAISE"] = (wire.actisense_line(3, 255, 5, 126208, bytes([1, 0, 0xED, 1, 2, 3, 4, 5])) + "\r\n").encode()   # bare Exception
     return out
 
 
